@@ -201,6 +201,9 @@ def autoreset_dict_obs(U, rep):
   cur = clone(s0)
   cur.f['obs'] = {'state': symarr('o', (2,)), 'aux': symarr('x', (2,))}
   cur.f['pipeline_state'] = Struct('PS', {'q': symarr('p', (3,))})
+  # the `aux` leaf is an INTEGER array (a tick counter, a discrete observation): restored like any other leaf
+  for arr in (s0.f['obs']['aux'], cur.f['obs']['aux'], s0.f['info']['first_obs']['aux']):
+    I.dtypes[id(arr)] = ('int', arr)
   cur.f['done'] = batom('prevdone')
   a = symarr('act', (2,))
   out = I.apply(I.attr(w, 'step'), [clone(cur), a], {})
@@ -208,7 +211,7 @@ def autoreset_dict_obs(U, rep):
   d = nxt.f['done']
   ok = isinstance(out.f['obs'], dict) and set(out.f['obs']) == {'state', 'aux'} and all(
       same(out.f['obs'][k], where(d, s0.f['obs'][k], nxt.f['obs'][k])) for k in ('state', 'aux'))
-  rep.check(ok, 'R15.2', 'AutoResetWrapper.step restores every leaf of a dict observation exactly when done',
+  rep.check(ok, 'R15.2', 'AutoResetWrapper.step restores every leaf of a dict observation (one of them integer-typed) exactly when done',
             'with a dict observation, after an episode end some observation leaf is not the one from reset', where=f.where(),
             construct="obs = {'state': ..., 'aux': ...}: obs[k] := done' ? first_obs[k] : stepped[k]")
 
